@@ -12,6 +12,16 @@
 //!         | 'N' | 'S' view                   Option::None / Some
 //!         | 'L' view | 'R' view              Either::Left / Right
 //!         | 'V' view* ']'                    Vec
+//!         | 'I' view                         InertElement::new(<the SSR string of the static element `view`>)
+//!         | 'K' (hex ';')* ']'               keyed(keys) with item view `<b>{key}</b>`
+//!         | 'k' (hex ';')* ']'               keyed(keys) with item view `{key}` (a String)
+//!         | 'Z' view | 'z'                   Result::<AnyView, fmt::Error>::Ok / Err
+//!         | '#' digits ';'                   a u32 (view/primitives.rs)
+//!         | 'a' hex ';' | 'c' hex ';'        Arc<str> | Cow<'static, str>
+//!         | '3' ('0'|'1'|'2') view           EitherOf3<AnyView, AnyView, AnyView>
+//!         | 'Y' view* ')'                    [AnyView; N], N = 1..3
+//!         | 'W' view                         OwnedView::new(view) (reactive_graph/owned.rs)
+//!         | 'F' view                         the closure `move || view` (reactive_graph/mod.rs, RenderEffect)
 //!   attr := 'A' hex ';' hex ';'              .attr(name, String)
 //!         | 'B' hex ';' ('0'|'1')            .attr(name, bool)
 //!         | 'O' hex ';' ('-' | 's' hex ';')  .attr(name, Option<String>)
@@ -42,7 +52,10 @@ use html::Tree;
 use hx_common::*;
 use std::collections::BTreeSet;
 use std::panic::{catch_unwind, AssertUnwindSafe};
-use tachys::either::Either;
+use tachys::either::{Either, EitherOf3};
+use tachys::html::InertElement;
+use tachys::reactive_graph::OwnedView;
+use tachys::view::keyed::keyed;
 use tachys::html::attribute as at;
 use tachys::html::attribute::any_attribute::{AnyAttribute, IntoAnyAttribute};
 use tachys::html::attribute::custom::custom_attribute;
@@ -83,6 +96,18 @@ enum V {
     Left(Box<V>),
     Right(Box<V>),
     Vec(Vec<V>),
+    Inert(Box<V>),
+    Keyed(Vec<String>),
+    KeyedText(Vec<String>),
+    Ok(Box<V>),
+    Err,
+    Num(u32),
+    ArcStr(String),
+    CowStr(String),
+    Of3(u8, Box<V>),
+    Array(Vec<V>),
+    Owned(Box<V>),
+    Closure(Box<V>),
 }
 
 fn hx(s: &str) -> String {
@@ -144,6 +169,44 @@ fn enc_v(v: &V, o: &mut String) {
             o.push('V');
             ks.iter().for_each(|k| enc_v(k, o));
             o.push(']');
+        }
+        V::Inert(x) => {
+            o.push('I');
+            enc_v(x, o);
+        }
+        V::Keyed(ks) | V::KeyedText(ks) => {
+            o.push(if matches!(v, V::Keyed(_)) { 'K' } else { 'k' });
+            for k in ks {
+                o.push_str(&hx(k));
+                o.push(';');
+            }
+            o.push(']');
+        }
+        V::Ok(x) => {
+            o.push('Z');
+            enc_v(x, o);
+        }
+        V::Err => o.push('z'),
+        V::Num(n) => o.push_str(&format!("#{n};")),
+        V::ArcStr(s) => o.push_str(&format!("a{};", hx(s))),
+        V::CowStr(s) => o.push_str(&format!("c{};", hx(s))),
+        V::Of3(i, x) => {
+            o.push('3');
+            o.push((b'0' + *i) as char);
+            enc_v(x, o);
+        }
+        V::Array(ks) => {
+            o.push('Y');
+            ks.iter().for_each(|k| enc_v(k, o));
+            o.push(')');
+        }
+        V::Owned(x) => {
+            o.push('W');
+            enc_v(x, o);
+        }
+        V::Closure(x) => {
+            o.push('F');
+            enc_v(x, o);
         }
     }
 }
@@ -250,6 +313,49 @@ impl<'a> D<'a> {
             b'L' => V::Left(Box::new(self.view()?)),
             b'R' => V::Right(Box::new(self.view()?)),
             b'V' => V::Vec(self.seq(b']')?),
+            b'I' => {
+                let x = self.view()?;
+                if !inert_ok(&x, true) {
+                    return Option::None;
+                }
+                V::Inert(Box::new(x))
+            }
+            k @ (b'K' | b'k') => {
+                let mut keys = vec![];
+                loop {
+                    if *self.s.get(self.i)? == b']' {
+                        self.i += 1;
+                        break;
+                    }
+                    keys.push(self.hex()?);
+                }
+                if k == b'K' {
+                    V::Keyed(keys)
+                } else {
+                    V::KeyedText(keys)
+                }
+            }
+            b'Z' => V::Ok(Box::new(self.view()?)),
+            b'z' => V::Err,
+            b'#' => V::Num(self.field()?.parse().ok()?),
+            b'a' => V::ArcStr(self.hex()?),
+            b'c' => V::CowStr(self.hex()?),
+            b'3' => {
+                let i = self.byte()?.checked_sub(b'0')?;
+                if i > 2 {
+                    return Option::None;
+                }
+                V::Of3(i, Box::new(self.view()?))
+            }
+            b'Y' => {
+                let ks = self.seq(b')')?;
+                if ks.is_empty() || ks.len() > 3 {
+                    return Option::None;
+                }
+                V::Array(ks)
+            }
+            b'W' => V::Owned(Box::new(self.view()?)),
+            b'F' => V::Closure(Box::new(self.view()?)),
             _ => return Option::None,
         })
     }
@@ -385,7 +491,59 @@ fn any(v: &V) -> Option<AnyView> {
         V::Left(x) => Either::<AnyView, AnyView>::Left(any(x)?).into_any(),
         V::Right(x) => Either::<AnyView, AnyView>::Right(any(x)?).into_any(),
         V::Vec(ks) => ks.iter().map(any).collect::<Option<Vec<AnyView>>>()?.into_any(),
+        V::Inert(x) => {
+            if !inert_ok(x, true) {
+                return Option::None;
+            }
+            // what the view! macro does at compile time: the static subtree as an HTML string
+            let html_s = any(x)?.to_html();
+            InertElement::new(html_s).into_any()
+        }
+        V::Keyed(keys) => keyed(keys.clone(), |k: &String| k.clone(), |_, k: String| (|_: usize| (), el::b().child(k)))
+            .into_any(),
+        V::KeyedText(keys) => keyed(keys.clone(), |k: &String| k.clone(), |_, k: String| (|_: usize| (), k)).into_any(),
+        V::Ok(x) => Result::<AnyView, std::fmt::Error>::Ok(any(x)?).into_any(),
+        V::Err => Result::<AnyView, std::fmt::Error>::Err(std::fmt::Error).into_any(),
+        V::Num(n) => (*n).into_any(),
+        V::ArcStr(s) => std::sync::Arc::<str>::from(s.as_str()).into_any(),
+        V::CowStr(s) => std::borrow::Cow::<'static, str>::Owned(s.clone()).into_any(),
+        V::Of3(i, x) => {
+            let x = any(x)?;
+            match i {
+                0 => EitherOf3::<AnyView, AnyView, AnyView>::A(x),
+                1 => EitherOf3::B(x),
+                _ => EitherOf3::C(x),
+            }
+            .into_any()
+        }
+        V::Array(ks) => {
+            let mut k = ks.iter().map(any).collect::<Option<Vec<AnyView>>>()?.into_iter();
+            match k.len() {
+                1 => [k.next().unwrap()].into_any(),
+                2 => [k.next().unwrap(), k.next().unwrap()].into_any(),
+                _ => [k.next().unwrap(), k.next().unwrap(), k.next().unwrap()].into_any(),
+            }
+        }
+        V::Owned(x) => OwnedView::new(any(x)?).into_any(),
+        V::Closure(x) => {
+            let x = (**x).clone();
+            (move || any(&x).expect("closure view")).into_any()
+        }
     })
+}
+
+/// the shape `view!` turns into an `InertElement`: an element with static string attributes whose
+/// children are such elements or single non-empty strings, no two strings adjacent
+fn inert_ok(v: &V, top: bool) -> bool {
+    match v {
+        V::Elem { attrs, kids, .. } => {
+            attrs.iter().all(|a| matches!(a, A::Str(..)))
+                && kids.iter().all(|k| inert_ok(k, false))
+                && !kids.windows(2).any(|w| matches!((&w[0], &w[1]), (V::Text(_), V::Text(_))))
+        }
+        V::Text(s) => !top && !s.is_empty(),
+        _ => false,
+    }
 }
 
 fn top(vs: &[V]) -> Option<AnyView> {
@@ -690,6 +848,9 @@ fn op_mis(a: &[V], c: &[V]) -> String {
 
 fn op(line: &str, tags: &std::collections::HashMap<String, String>) -> String {
     let w: Vec<&str> = line.split_whitespace().collect();
+    // a reactive owner per op: `OwnedView::new` and the render effects of closures need one
+    let owner = reactive_graph::owner::Owner::new();
+    owner.set();
     match w.as_slice() {
         ["case", n] => match tags.get(*n) {
             Some(t) if !t.is_empty() => format!("case {n} tags={t}"),
@@ -743,7 +904,41 @@ fn seq_tags(ks: &[V], in_elem: bool, t: &mut BTreeSet<String>) {
                 );
             }
         }
-        let dynamic = matches!(k, V::None | V::Some(_) | V::Left(_) | V::Right(_) | V::Vec(_) | V::Unit);
+        let dynamic = matches!(
+            k,
+            V::None
+                | V::Some(_)
+                | V::Left(_)
+                | V::Right(_)
+                | V::Vec(_)
+                | V::Unit
+                | V::Keyed(_)
+                | V::KeyedText(_)
+                | V::Ok(_)
+                | V::Err
+                | V::Of3(..)
+                | V::Closure(_)
+                | V::Owned(_)
+        );
+        if matches!(k, V::Inert(_)) {
+            t.insert(
+                if ks.len() == 1 {
+                    "inert-only"
+                } else if i == 0 {
+                    "inert-first"
+                } else if i + 1 == ks.len() {
+                    "inert-last"
+                } else {
+                    "inert-mid"
+                }
+                .into(),
+            );
+        }
+        if matches!(k, V::Keyed(x) | V::KeyedText(x) if x.is_empty()) || matches!(k, V::Err) {
+            if i > 0 && matches!(ks[i - 1], V::Text(_)) && i + 1 < ks.len() && matches!(ks[i + 1], V::Text(_)) {
+                t.insert("marker-between-texts".into());
+            }
+        }
         if dynamic && i + 1 < ks.len() {
             t.insert(if in_elem { "kids-after-dyn" } else { "sib-after-dyn" }.into());
             if let V::Vec(xs) = k {
@@ -795,6 +990,41 @@ fn v_tags(v: &V, t: &mut BTreeSet<String>) {
             // items of a Vec are siblings too
             seq_tags(ks, false, t);
         }
+        V::Inert(_) => {
+            t.insert("inert".into());
+        }
+        V::Keyed(ks) => {
+            t.insert(if ks.is_empty() { "keyed-empty" } else { "keyed" }.into());
+        }
+        V::KeyedText(ks) => {
+            t.insert(if ks.is_empty() { "keyed-empty" } else { "keyed-text-items" }.into());
+        }
+        V::Ok(x) => {
+            t.insert("result-ok".into());
+            v_tags(x, t);
+        }
+        V::Err => {
+            t.insert("result-err".into());
+        }
+        V::Num(_) | V::ArcStr(_) | V::CowStr(_) => {
+            t.insert("other-text-type".into());
+        }
+        V::Of3(_, x) => {
+            t.insert("either-of-3".into());
+            v_tags(x, t);
+        }
+        V::Array(ks) => {
+            t.insert("array".into());
+            seq_tags(ks, false, t);
+        }
+        V::Owned(x) => {
+            t.insert("owned-view".into());
+            v_tags(x, t);
+        }
+        V::Closure(x) => {
+            t.insert("closure".into());
+            v_tags(x, t);
+        }
     }
 }
 
@@ -819,7 +1049,39 @@ fn diff_tags(a: &V, b: &V, t: &mut BTreeSet<String>) {
         (V::Tuple(k1), V::Tuple(k2)) if k1.len() == k2.len() => {
             k1.iter().zip(k2).for_each(|(x, y)| diff_tags(x, y, t))
         }
-        (V::None, V::None) | (V::Unit, V::Unit) => {}
+        (V::None, V::None) | (V::Unit, V::Unit) | (V::Err, V::Err) | (V::Inert(_), V::Inert(_)) => {}
+        (V::Keyed(x), V::Keyed(y)) | (V::KeyedText(x), V::KeyedText(y)) => {
+            if x != y {
+                t.insert("keyed-change".into());
+            }
+        }
+        (V::Ok(_), V::Err) | (V::Err, V::Ok(_)) => {
+            t.insert("result-switch".into());
+        }
+        (V::Ok(x), V::Ok(y)) | (V::Owned(x), V::Owned(y)) => diff_tags(x, y, t),
+        (V::Closure(_), V::Closure(_)) => {
+            t.insert("closure-rebuild".into());
+        }
+        (V::Num(x), V::Num(y)) => {
+            if x != y {
+                t.insert("text-change".into());
+            }
+        }
+        (V::ArcStr(x), V::ArcStr(y)) | (V::CowStr(x), V::CowStr(y)) => {
+            if x != y {
+                t.insert("text-change".into());
+            } else if x.is_empty() {
+                t.insert("empty-kept".into());
+            }
+        }
+        (V::Of3(i, x), V::Of3(j, y)) => {
+            if i == j {
+                diff_tags(x, y, t)
+            } else {
+                t.insert("either-switch".into());
+            }
+        }
+        (V::Array(k1), V::Array(k2)) if k1.len() == k2.len() => k1.iter().zip(k2).for_each(|(x, y)| diff_tags(x, y, t)),
         (V::None, V::Some(_)) => {
             t.insert("opt-none-to-some".into());
         }
@@ -950,7 +1212,85 @@ fn gen_seq(r: &mut Rng, depth: usize, anc: &mut Vec<&'static str>, lo: usize, hi
     (0..n).map(|_| gen_v(r, depth, anc)).collect()
 }
 
+const KEYS: &[&str] = &["1", "2", "3", "a", "b", "x y", "<k>"];
+
+fn gen_keys(r: &mut Rng, lo: usize, hi: usize) -> Vec<String> {
+    let n = r.range(lo, hi);
+    let mut out: Vec<String> = vec![];
+    for _ in 0..n {
+        let k = r.pick(KEYS).to_string();
+        if !out.contains(&k) {
+            out.push(k);
+        }
+    }
+    out
+}
+
+/// a fully static element (what `view!` pre-renders into an `InertElement`)
+fn gen_inert(r: &mut Rng, depth: usize, anc: &mut Vec<&'static str>) -> Option<V> {
+    let ok: Vec<&'static str> =
+        ["div", "p", "b", "i", "a", "span2", "my-box", "h2"].iter().copied().filter(|t| *t != "span2" && html::nest_ok(t, anc)).collect();
+    if ok.is_empty() {
+        return Option::None;
+    }
+    let tag = *r.pick(&ok);
+    let attrs = match tag {
+        "div" => vec![A::Str("id".into(), r.pick(&["s", "a b", "\"<&>\""]).to_string())],
+        "a" => vec![A::Str("href".into(), "#x".into())],
+        "my-box" => vec![A::Str("data-x".into(), "é".into())],
+        _ => vec![],
+    };
+    anc.insert(0, tag);
+    let mut kids: Vec<V> = vec![];
+    let n = if depth == 0 { r.range(0, 1) } else { r.range(0, 3) };
+    for _ in 0..n {
+        let want_text = r.chance(1, 2) && !matches!(kids.last(), Some(V::Text(_)));
+        if want_text || depth == 0 {
+            if matches!(kids.last(), Some(V::Text(_))) {
+                continue;
+            }
+            kids.push(V::Text(r.pick(&["static", "a", "x y", "<b>", "&amp;", "é"]).to_string()));
+        } else if let Some(k) = gen_inert(r, depth - 1, anc) {
+            kids.push(k);
+        }
+    }
+    anc.remove(0);
+    Some(V::Elem { tag: tag.into(), attrs, kids })
+}
+
+/// one of the other `RenderHtml` implementors
+fn gen_ext(r: &mut Rng, depth: usize, anc: &mut Vec<&'static str>) -> V {
+    let d1 = depth.saturating_sub(1);
+    match r.below(12) {
+        0 | 1 | 2 => match gen_inert(r, d1.min(2), anc) {
+            Some(x) => V::Inert(Box::new(x)),
+            Option::None => V::Text(gen_text(r)),
+        },
+        3 | 4 => V::Keyed(gen_keys(r, 0, 3)),
+        5 => V::KeyedText(gen_keys(r, 0, 3)),
+        6 => {
+            if r.chance(1, 2) {
+                V::Err
+            } else {
+                V::Ok(Box::new(gen_v(r, d1, anc)))
+            }
+        }
+        7 => match r.below(3) {
+            0 => V::Num(r.below(1000) as u32),
+            1 => V::ArcStr(gen_text(r)),
+            _ => V::CowStr(gen_text(r)),
+        },
+        8 => V::Of3(r.below(3) as u8, Box::new(gen_v(r, d1, anc))),
+        9 => V::Array(gen_seq(r, d1, anc, 1, 3)),
+        10 => V::Owned(Box::new(gen_v(r, d1, anc))),
+        _ => V::Closure(Box::new(gen_v(r, d1, anc))),
+    }
+}
+
 fn gen_v(r: &mut Rng, depth: usize, anc: &mut Vec<&'static str>) -> V {
+    if r.chance(1, 5) {
+        return gen_ext(r, depth, anc);
+    }
     let leaf = depth == 0;
     match r.below(if leaf { 5 } else { 16 }) {
         0 | 1 | 2 => V::Text(gen_text(r)),
@@ -1009,7 +1349,8 @@ fn gen_v(r: &mut Rng, depth: usize, anc: &mut Vec<&'static str>) -> V {
 /// a second value "of the same type": same static skeleton, different dynamic choices
 fn mutate(r: &mut Rng, v: &V, depth: usize, anc: &mut Vec<&'static str>) -> V {
     // now and then a different view altogether (AnyView with another TypeId: replace path)
-    if r.chance(1, 25) {
+    // (not for a keyed list of strings: see the arm below)
+    if r.chance(1, 25) && !matches!(v, V::KeyedText(_)) {
         return gen_v(r, depth.min(2), anc);
     }
     match v {
@@ -1022,6 +1363,11 @@ fn mutate(r: &mut Rng, v: &V, depth: usize, anc: &mut Vec<&'static str>) -> V {
         }
         V::Unit => V::Unit,
         V::Elem { tag, attrs: _, kids } => {
+            if tag == "textarea" || tag == "style" {
+                // an element that does not escape its children: only its string changes
+                let body = if r.chance(1, 2) { kids.clone() } else { vec![V::Text(r.pick(&["a", "b", "p{}", "x y"]).to_string())] };
+                return V::Elem { tag: tag.clone(), attrs: vec![], kids: body };
+            }
             let tag_s: &'static str = CONTAINERS.iter().chain(VOIDS).copied().find(|t| t == tag).unwrap_or("div");
             anc.insert(0, tag_s);
             let kids = kids.iter().map(|k| mutate(r, k, depth.saturating_sub(1), anc)).collect();
@@ -1077,6 +1423,83 @@ fn mutate(r: &mut Rng, v: &V, depth: usize, anc: &mut Vec<&'static str>) -> V {
             }
             V::Vec(out)
         }
+        V::Inert(x) => V::Inert(x.clone()),
+        V::KeyedText(ks) => {
+            // string items carry `<!>` separators that stay behind when a node moves: only changes at the
+            // end of the list leave the comments where an unkeyed rebuild leaves them (what the model runs)
+            let mut out = ks.clone();
+            match r.below(4) {
+                0 => out.clear(),
+                1 => {
+                    out.pop();
+                }
+                2 => {
+                    for k in gen_keys(r, 1, 2) {
+                        if !out.contains(&k) {
+                            out.push(k);
+                        }
+                    }
+                }
+                _ => {}
+            }
+            V::KeyedText(out)
+        }
+        V::Keyed(ks) => {
+            let mut out = ks.clone();
+            match r.below(6) {
+                0 => out.clear(),
+                1 => out.reverse(),
+                2 => {
+                    if !out.is_empty() {
+                        let i = r.below(out.len());
+                        out.remove(i);
+                    }
+                }
+                3 | 4 => {
+                    for k in gen_keys(r, 1, 2) {
+                        if !out.contains(&k) {
+                            let i = r.below(out.len() + 1);
+                            out.insert(i, k);
+                        }
+                    }
+                }
+                _ => {}
+            }
+            V::Keyed(out)
+        }
+        V::Ok(x) => {
+            if r.chance(1, 3) {
+                V::Err
+            } else {
+                V::Ok(Box::new(mutate(r, x, depth.saturating_sub(1), anc)))
+            }
+        }
+        V::Err => {
+            if r.chance(1, 2) {
+                V::Err
+            } else {
+                V::Ok(Box::new(gen_v(r, depth.saturating_sub(1).min(2), anc)))
+            }
+        }
+        V::Num(n) => {
+            if r.chance(1, 2) {
+                V::Num(*n)
+            } else {
+                V::Num(r.below(1000) as u32)
+            }
+        }
+        V::ArcStr(s) => V::ArcStr(if r.chance(1, 2) { s.clone() } else { gen_text(r) }),
+        V::CowStr(s) => V::CowStr(if r.chance(1, 2) { s.clone() } else { gen_text(r) }),
+        V::Of3(i, x) => {
+            if r.chance(2, 5) {
+                V::Of3((*i + 1 + r.below(2) as u8) % 3, Box::new(gen_v(r, depth.saturating_sub(1).min(2), anc)))
+            } else {
+                V::Of3(*i, Box::new(mutate(r, x, depth.saturating_sub(1), anc)))
+            }
+        }
+        V::Array(ks) => V::Array(ks.iter().map(|k| mutate(r, k, depth.saturating_sub(1), anc)).collect()),
+        V::Owned(x) => V::Owned(Box::new(mutate(r, x, depth.saturating_sub(1), anc))),
+        V::Closure(x) => V::Closure(Box::new(mutate(r, x, depth.saturating_sub(1), anc))),
     }
 }
 
@@ -1166,9 +1589,42 @@ fn small_scope() -> Vec<(String, Vec<V>, Vec<V>)> {
         add("raw-textarea", vec![e("textarea", vec![t("a")])], vec![e("textarea", vec![t("b")])]);
     }
     add("raw-style-same", vec![e("style", vec![t("p{}")])], vec![e("style", vec![t("p{}")])]);
+    // the other RenderHtml implementors, in every position
+    let st = || V::Inert(Box::new(e("p", vec![t("static")])));
+    add("inert-first", vec![e("div", vec![st(), t("dyn")])], vec![e("div", vec![st(), t("DYN")])]);
+    add("inert-first-then-elem", vec![e("div", vec![st(), e("p", vec![t("dyn")])])], vec![e("div", vec![st(), e("p", vec![t("DYN")])])]);
+    add("inert-mid", vec![e("div", vec![t("a"), st(), t("b")])], vec![e("div", vec![t("A"), st(), t("B")])]);
+    add("inert-last", vec![e("div", vec![t("a"), st()])], vec![e("div", vec![t("A"), st()])]);
+    add("inert-only", vec![e("div", vec![st()])], vec![e("div", vec![st()])]);
+    add("inert-top", vec![st(), t("dyn")], vec![st(), t("DYN")]);
+    let nested = || V::Inert(Box::new(e("div", vec![e("b", vec![t("x")]), t("y"), e("i", vec![])])));
+    add("inert-nested", vec![nested(), sm(t("o"))], vec![nested(), V::None]);
+    let ks = |v: &[&str]| v.iter().map(|s| s.to_string()).collect::<Vec<_>>();
+    add("keyed", vec![V::Keyed(ks(&["1", "2", "3"])), t("s")], vec![V::Keyed(ks(&["3", "1", "4"])), t("s")]);
+    add("keyed-empty-between-texts", vec![t("a"), V::Keyed(vec![]), t("b")], vec![t("a"), V::Keyed(ks(&["1"])), t("b")]);
+    add("keyed-first", vec![e("div", vec![V::Keyed(ks(&["1"])), t("s")])], vec![e("div", vec![V::Keyed(vec![]), t("s")])]);
+    add("keyed-text-items", vec![V::KeyedText(ks(&["a", "b"])), t("s")], vec![V::KeyedText(ks(&["a", "b", "c"])), t("s")]);
+    add("result-err-between-texts", vec![t("a"), V::Err, t("b")], vec![t("a"), V::Ok(Box::new(t("m"))), t("b")]);
+    add("result-ok", vec![V::Ok(Box::new(e("b", vec![t("x")]))), t("s")], vec![V::Err, t("s")]);
+    add("other-text-types", vec![V::Num(1), V::ArcStr("a".into()), V::CowStr("".into()), t("t")],
+        vec![V::Num(22), V::ArcStr("".into()), V::CowStr("".into()), t("t")]);
+    add("either-of-3", vec![V::Of3(0, Box::new(t("a"))), t("s")], vec![V::Of3(2, Box::new(e("b", vec![]))), t("s")]);
+    add("array", vec![V::Array(vec![t("a"), t("b")]), t("s")], vec![V::Array(vec![t("c"), t("b")]), t("s")]);
+    add("owned-view", vec![V::Owned(Box::new(t("a"))), t("s")], vec![V::Owned(Box::new(t("b"))), t("s")]);
+    add("closure", vec![t("a"), V::Closure(Box::new(t("c"))), t("s")], vec![t("a"), V::Closure(Box::new(e("b", vec![t("d")]))), t("s")]);
+    add("closure-first", vec![e("div", vec![V::Closure(Box::new(V::None)), t("s")])], vec![e("div", vec![V::Closure(Box::new(sm(t("x")))), t("s")])]);
     // AnyView with another type on rebuild
     add("any-replace", vec![t("a"), e("b", vec![t("x")]), t("c")], vec![t("a"), t("plain"), t("c")]);
     out
+}
+
+fn has_inert(v: &V) -> bool {
+    match v {
+        V::Inert(_) => true,
+        V::Elem { kids, .. } | V::Tuple(kids) | V::Vec(kids) | V::Array(kids) => kids.iter().any(has_inert),
+        V::Some(x) | V::Left(x) | V::Right(x) | V::Ok(x) | V::Of3(_, x) | V::Owned(x) | V::Closure(x) => has_inert(x),
+        _ => false,
+    }
 }
 
 fn gen(seed: u64, n: usize, path: &str) -> std::io::Result<()> {
@@ -1210,8 +1666,9 @@ fn gen(seed: u64, n: usize, path: &str) -> std::io::Result<()> {
             writeln!(f, "frag {tag} {} {} {} {}", enc_seq(&pre), enc_seq(&ia), enc_seq(&ib), enc_seq(&post))?;
             continue;
         }
-        if r.chance(1, 12) {
-            // mismatching DOM: the walk's error paths
+        if r.chance(1, 12) && !a.iter().any(has_inert) {
+            // mismatching DOM: the walk's error paths (an `InertElement` fails its cast with a bare `unwrap()`,
+            // which reports nothing: not used here)
             let c = if r.chance(1, 2) {
                 gen_seq(&mut r, depth, &mut anc, 1, 3)
             } else {
@@ -1231,6 +1688,7 @@ fn main() {
         Cmd::Gen { seed, n, ops, .. } => gen(seed, n, &ops).unwrap(),
         Cmd::Run { ops, out } => {
             quiet_panics();
+            let _ = any_spawner::Executor::init_futures_executor();
             let mut tags = std::collections::HashMap::new();
             let text = std::fs::read_to_string(&ops).unwrap();
             let mut cur: Option<String> = Option::None;
